@@ -465,6 +465,29 @@ def standin_local_processor_jobs(tier, seed):
                     problem = problem or f"program {pid[i]} lists jobs {listed}; submitted under it: {mine}"
         if problem:
             fails.append(dict(args=dict(mode=str(sim_type), concurrent=concurrent, program_ids=ids, submission_order=order), failed="local-jobs", clause=problem))
+    # one job is one run: asking a job for its results again (flat or batched view) hands back the same results and does not run the circuit again
+    class Counting(cirq.Sampler):
+        def __init__(self):
+            self.calls, self.inner = 0, cirq.Simulator(seed=11)
+
+        def run_sweep(self, program, params, repetitions=1):
+            self.calls += 1
+            return self.inner.run_sweep(program, params, repetitions)
+
+    coin = cirq.Circuit(cirq.H.on_each(*qs), cirq.measure(*qs, key="m"))
+    for sim_type in (LocalSimulationType.ASYNCHRONOUS, LocalSimulationType.SYNCHRONOUS):
+        cases += 1
+        sampler = Counting()
+        proc = SimulatedLocalProcessor(processor_id="p", sampler=sampler, simulation_type=sim_type)
+        try:
+            job = proc.run_sweep(coin, repetitions=30)
+            first = job.results()[0].measurements["m"].tolist()
+            second = job.results()[0].measurements["m"].tolist()
+        except Exception as ex:
+            fails.append(dict(args=dict(mode=str(sim_type)), failed="local-jobs-raised", clause=f"{ex!r}"))
+            continue
+        if first != second or sampler.calls != 1:
+            fails.append(dict(args=dict(mode=str(sim_type), sampler_calls=sampler.calls), failed="local-job-runs-once", clause=f"asking one job for its results twice ran the circuit {sampler.calls} times" + ("" if first == second else " and returned two different sets of samples")))
     return dict(function=F_, case="local-processor-jobs", bound="12 jobs with distinct deterministic circuits x 2 simulation modes x sequential / concurrent submission x program ids shared by 4 jobs / distinct / generated",
                 cases=cases, distinct=cases, failures=len(fails), exhaustive=True, _fails=fails[:4])
 standin_local_processor_jobs.prop = "C20"
